@@ -41,6 +41,37 @@ theorem c27_max (rs : List Rec) (hne : rs ≠ []) (hr : ∀ r ∈ rs, Readable r
       · exact h3
       · exact h4 x (by simpa using hx)
 
+/-- Exactness of the returned INDEX (which the tie only observes): it is the first position holding
+a maximal record — every earlier record is strictly worse than the selected one. Together with
+`c27_max` this determines `selectRecord` on readable input completely. -/
+theorem c27_first_max (rs : List Rec) (hr : ∀ r ∈ rs, Readable r) (i : Nat) (ri : Rec)
+    (hs : selectRecord rs = some i) (hi : rs[i]? = some ri) :
+    ∀ j rj, j < i → rs[j]? = some rj → kcmp rj ri < 0 := by
+  match rs, hs with
+  | [r0], hs =>
+    simp only [selectRecord, Option.some.injEq] at hs
+    intro j rj hj; omega
+  | r0 :: r1 :: rest, hs =>
+    obtain ⟨rk, h1, h2, h3⟩ := selLoop_first (r1 :: rest) 0 r0 1 (by omega) (hr r0 (by simp))
+      (fun r h => hr r (by simp at h ⊢; exact .inr h)) i hs
+    have hrk : rk = ri := by
+      rcases h1 with ⟨hk, hrk⟩ | ⟨m, hm, hk⟩
+      · subst hk; simp at hi; rw [hrk]; exact hi
+      · subst hk
+        rw [Nat.add_comm] at hi
+        simp only [List.getElem?_cons_succ] at hi
+        rw [hm] at hi; simpa using hi
+    subst hrk
+    intro j rj hj hjr
+    cases j with
+    | zero =>
+      simp only [List.getElem?_cons_zero, Option.some.injEq] at hjr
+      subst hjr
+      exact h2 (by omega)
+    | succ j =>
+      simp only [List.getElem?_cons_succ] at hjr
+      exact h3 j rj hjr (by omega)
+
 /-- The bytes of the selected record do not depend on the order of the input (any length). -/
 theorem c27_perm (rs rs' : List Rec) (hp : rs.Perm rs') (hr : ∀ r ∈ rs, Readable r) :
     selectBytes rs = selectBytes rs' := by
